@@ -90,7 +90,7 @@ Definition op_coh_ok (toks : list tok) (S : symbol_map) (o : op) : bool :=
   | _ => true
   end.
 
-(** ---- C03: ids valid, cursor discipline, parents strictly older *)
+(** ---- C03: ids valid, cursor discipline (since fix 1b571ae the parent relation need not be acyclic) *)
 Definition cur_is (S : symbol_map) (k : sym_kind) : option N :=
   match sm_cur S with
   | Some (k', id) => if sym_kind_eqb k k' && valid_id S k id then Some id else None
@@ -116,7 +116,7 @@ Definition op_ids_ok (S : symbol_map) (o : op) : bool :=
   | OpRecAddField _ id =>
       match cur_is S KRecord with Some _ => valid_id S KRecordField id | None => false end
   | OpRecAddParent p =>
-      match cur_is S KRecord with Some r => p <? r | None => false end
+      match cur_is S KRecord with Some _ => valid_id S KRecord p | None => false end
   | OpDefsetAddDef id =>
       match cur_is S KDefset with Some _ => valid_id S KRecord id | None => false end
   | OpMcAddTemplateArg _ id =>
